@@ -84,18 +84,18 @@ theorem impl_subset_spec_iff (G : M3 ℚ) (hs : isSymm G = true) (hp : isPD G = 
 /-- **window_complete_of_certificate**: the reduction of window completeness to a finite decidable
 condition on the Gram matrix.  `windowCert G window65` inspects the finitely many lattice points `n` of
 a box (outside it every image is longer than any reduced separation) that are not search points and
-asks for a neighbour step `e` with `2·eᵀGn − Q(e) − ‖Ge‖₁ > 0`; then `d+n−e` is strictly shorter than
-`d+n` for every `d ∈ [-1/2,1/2]³`.  If it passes, the window is complete for **all** reduced
-separations at once.  The check evaluates it in the driver for every generated lattice. -/
+covers the cube `[-1,1]³` of separations (both positions of a pair are reduced into `[-1/2,1/2]³`) by
+boxes, found by bisection, on each of which some neighbour step `e` makes `d+n−e` strictly shorter than
+`d+n`.  If it passes, the window is complete for **all** separations the kernels can see.  The check evaluates it in the driver for every generated lattice. -/
 theorem window_complete_of_certificate (G : M3 ℚ) (hs : isSymm G = true) (hp : isPD G = true)
-    (hc : windowCert G window65 = true) (d : V3 ℚ) (hd : |d.x| ≤ 1/2 ∧ |d.y| ≤ 1/2 ∧ |d.z| ≤ 1/2) :
+    (hc : windowCert G window65 = true) (d : V3 ℚ) (hd : InCube d) :
     WindowComplete G d window65 :=
   fun n hn => windowCert_sound G (pd_of_checks G hs hp) window65 hc d hd n hn
 
 /-- … and therefore the kernels' table is the set of minimum images over the whole lattice, for every
-pair whose reduced separation lies in the cube (it always does: positions are reduced by `rint`). -/
+pair (the separation of two positions reduced by `x − rint(x)` always lies in the cube `[-1,1]³`). -/
 theorem impl_eq_spec_of_certificate (G : M3 ℚ) (hs : isSymm G = true) (hp : isPD G = true)
-    (hc : windowCert G window65 = true) (d : V3 ℚ) (hd : |d.x| ≤ 1/2 ∧ |d.y| ≤ 1/2 ∧ |d.z| ≤ 1/2) (v : V3 ℚ) :
+    (hc : windowCert G window65 = true) (d : V3 ℚ) (hd : InCube d) (v : V3 ℚ) :
     v ∈ pairShortest G d window65 ↔ v ∈ specShortest G d :=
   ((impl_subset_spec_iff G hs hp d window65).mpr (window_complete_of_certificate G hs hp hc d hd)) v
 
@@ -113,33 +113,36 @@ example : windowCert (⟨4, 2, 2, 2, 4, 2, 2, 2, 4⟩ : M3 ℚ) window65 = true 
 
 /-- the part of the property that is **not** a theorem here (the source says "There is no proof that
 this is enough"): for **every** well-reduced Gram matrix the certificate passes / the 65-point window is
-complete for every separation reduced into `[-1/2, 1/2]³`.  It is a theorem for every lattice whose
+complete for every separation in `[-1,1]³`.  It is a theorem for every lattice whose
 certificate passes (`window_complete_of_certificate`), evaluated per case, and is tested per pair
 against `specShortest` otherwise. -/
 def FullStatement_window : Prop :=
   ∀ (G : M3 ℚ) (d : V3 ℚ), PD G → wellReduced G = true →
-    (|d.x| ≤ 1/2 ∧ |d.y| ≤ 1/2 ∧ |d.z| ≤ 1/2) → WindowComplete G d window65
+    InCube d → WindowComplete G d window65
 
-/-- **window_complete_partial**: the sub-case that is proved — orthogonal reduced lattices (diagonal
-Gram matrix: cubic, tetragonal, orthorhombic P), separations reduced into `[-1/2,1/2]³`. -/
+/-- **window_complete_partial**: the sub-case that is proved outright — orthogonal reduced lattices
+(diagonal Gram matrix: cubic, tetragonal, orthorhombic P), every separation in `[-1,1]³`. -/
 theorem window_complete_partial (G : M3 ℚ) (d : V3 ℚ) (h01 : G.a01 = 0) (h02 : G.a02 = 0) (h10 : G.a10 = 0)
     (h12 : G.a12 = 0) (h20 : G.a20 = 0) (h21 : G.a21 = 0) (p0 : 0 < G.a00) (p1 : 0 < G.a11) (p2 : 0 < G.a22)
-    (hd : |d.x| ≤ 1/2 ∧ |d.y| ≤ 1/2 ∧ |d.z| ≤ 1/2) : WindowComplete G d window65 := by
+    (hd : InCube d) : WindowComplete G d window65 := by
   intro n hn
   have L := len2_diag G h01 h02 h10 h12 h20 h21
-  have hx := hn ⟨0, n.y, n.z⟩
-  have hy := hn ⟨n.x, 0, n.z⟩
-  have hz := hn ⟨n.x, n.y, 0⟩
-  rw [L, L] at hx hy hz
-  simp only [V3.add_def, V3.toRat, V3.map, Int.cast_zero, add_zero] at hx hy hz
-  have cx : n.x ∈ ([-1, 0, 1] : List Int) := coord_small p0 hd.1 (by linarith)
-  have cy : n.y ∈ ([-1, 0, 1] : List Int) := coord_small p1 hd.2.1 (by linarith)
-  have cz : n.z ∈ ([-1, 0, 1] : List Int) := coord_small p2 hd.2.2 (by linarith)
+  have hxm := hn ⟨n.x - 1, n.y, n.z⟩
+  have hxp := hn ⟨n.x + 1, n.y, n.z⟩
+  have hym := hn ⟨n.x, n.y - 1, n.z⟩
+  have hyp := hn ⟨n.x, n.y + 1, n.z⟩
+  have hzm := hn ⟨n.x, n.y, n.z - 1⟩
+  have hzp := hn ⟨n.x, n.y, n.z + 1⟩
+  rw [L, L] at hxm hxp hym hyp hzm hzp
+  simp only [V3.add_def, V3.toRat, V3.map, Int.cast_sub, Int.cast_add, Int.cast_one] at hxm hxp hym hyp hzm hzp
+  have cx : n.x ∈ ([-1, 0, 1] : List Int) := coord_small p0 hd.1 (by linarith) (by linarith)
+  have cy : n.y ∈ ([-1, 0, 1] : List Int) := coord_small p1 hd.2.1 (by linarith) (by linarith)
+  have cz : n.z ∈ ([-1, 0, 1] : List Int) := coord_small p2 hd.2.2 (by linarith) (by linarith)
   exact cube_in_window n.x cx n.y cy n.z cz
 
 /-- hence, for orthogonal reduced lattices, the kernels store exactly the minimum images over the whole lattice -/
 theorem impl_eq_spec_orthogonal (G : M3 ℚ) (d : V3 ℚ) (hs : isSymm G = true) (hp : isPD G = true)
-    (h01 : G.a01 = 0) (h02 : G.a02 = 0) (h12 : G.a12 = 0) (hd : |d.x| ≤ 1/2 ∧ |d.y| ≤ 1/2 ∧ |d.z| ≤ 1/2) (v : V3 ℚ) :
+    (h01 : G.a01 = 0) (h02 : G.a02 = 0) (h12 : G.a12 = 0) (hd : InCube d) (v : V3 ℚ) :
     v ∈ pairShortest G d window65 ↔ v ∈ specShortest G d := by
   have h := pd_of_checks G hs hp
   have w := window_complete_partial G d h01 h02 (by rw [h.s01, h01]) h12 (by rw [h.s02, h02]) (by rw [h.s12, h12])
